@@ -22,6 +22,8 @@ func init() {
 			"(R14.5) session-level (off-loop) code dereferences a nil-able torrent field only under a dominating != nil test. " +
 			"(R14.6) a torrent's resume bucket is created only as part of Resumer.Write and the single-field writers run their callback only on a looked-up bucket under b != nil, so a write that arrives after RemoveTorrent deleted the record cannot resurrect it. " +
 			"(R14.7) the periodic writer Session.updateStats passes, in every iteration of a range loop over Session.torrents that runs on every path, the Put of each transfer counter key (no status filter in front of the Puts). " +
+			"(R14.8) an out-of-band writer that stores an extension (append) of a resume value derives it from a Get of the same key on the same bucket inside the same transaction callback (no lost update). " +
+			"(R14.9) torrent.port is assigned only by the constructor from its parameter, or re-read from a listener all of whose net.ListenTCP calls bind exactly t.port. " +
 			"NOT decided: conservation over arbitrary interleavings beyond the lock-region shape, equality of values across a real restart, bbolt behaviour, data races on the fields read (C20).",
 		RuleText:    commonRuleText,
 		Assumptions: append([]string{"bbolt Put/Get store and return the bytes given; strconv/time/json/base64 encoder-decoder pairs of the pairs table are mutually inverse"}, commonAssumptions...),
@@ -67,6 +69,7 @@ func runC14(c *kit.Ctx) {
 	runC14Codec(c, e.k)
 	e.ruleNilDeref()
 	e.ruleNoResurrection()
+	e.rulePortStable()
 }
 
 // ---- shared: registration facts -----------------------------------------------
